@@ -290,22 +290,44 @@ def rule_priority(run, F, cfg):
 
 def rule_priority_slices(run, F, cfg):
     """`name:priority`: split at the LAST ':', the priority is everything after it, the resource everything
-    before it; a higher priority replaces the current best"""
+    before it; a higher priority replaces the current best (compared modulo the names of the locals)"""
+    from analysis.names import renaming
     f = F.fn("blocker::Blocker::check_parameterised")
+    sp = [f.vexpr_call(t) for b, t in f.calls(r"memchr::memrchr$|find_char_reverse$|str::rfind$")]
+    subj = None
+    if len(sp) == 1:
+        m = re.match(r"^(?:memchr::memrchr|utils::find_char_reverse)\(58, std::string::String::as_bytes\((\$\w+)\)\)$", sp[0])
+        subj = m.group(1) if m else None
     idx = sorted(re.sub(r"<std::string::String as std::ops::Index<I>>::index", "index", f.vexpr_call(t))
-                 for b, t in f.calls(r"index$") if f.vexpr_call(t).count("$redirect"))
-    want = sorted(["index($redirect, std::ops::RangeFrom::RangeFrom{start: ($idx AddWithOverflow 1).0})",
-                   "index($redirect, std::ops::RangeTo::RangeTo{end: $idx})",
-                   "index($redirect, std::ops::RangeFull::RangeFull{})",
-                   "index($redirect, std::ops::RangeFull::RangeFull{})"])
-    sp = [f.vexpr_call(t) for b, t in f.calls(r"memchr::memrchr$|find_char_reverse$|str::rfind$|rsplit_once$")]
-    ok_split = sp == ["memchr::memrchr(58, std::string::String::as_bytes($redirect))"] or \
-        (len(sp) == 1 and "rsplit_once($redirect, ':')" in sp[0])
-    run.ob("C13.6.priority-suffix", "slices", idx == want and ok_split,
-           f"the option is split at the last ':' into resource = redirect[..idx] and priority = redirect[idx+1..] "
-           f"(fallback: the whole string with priority 0); found split {sp}, slices {idx}", site=f.loc(0), config=cfg)
-    cmp_ = [f.vexpr_rvalue(st["rv"]) for b, i, st in f.statements()
-            if st["k"] == "assign" and st["rv"]["k"] == "binop" and st["rv"]["op"] in ("Gt", "Ge", "Lt", "Le")
-            and "$priority" in f.vexpr_rvalue(st["rv"])]
-    run.ob("C13.6.priority-suffix", "higher-priority-wins", cmp_ in (["($priority Gt $p1)"], ["($priority Ge $p1)"], ["($p1 Lt $priority)"], ["($p1 Le $priority)"]),
-           f"the candidate replaces the current best only when its priority is greater (ties: either order) ({cmp_})", config=cfg)
+                 for b, t in f.calls(r"index$") if subj and subj in f.vexpr_call(t))
+    cmp_ = []
+    for b, i, st in f.statements():
+        if st["k"] == "assign" and st["rv"]["k"] == "binop" and st["rv"]["op"] in ("Gt", "Ge", "Lt", "Le"):
+            a, b2 = f.vexpr_operand(st["rv"]["a"]), f.vexpr_operand(st["rv"]["b"])
+            if re.match(r"^\$\w+$", a) and re.match(r"^\$\w+$", b2):
+                # normalise to "greater": (new, best)
+                cmp_.append((a, b2) if st["rv"]["op"] in ("Gt", "Ge") else (b2, a))
+    # the candidate priority is the one parsed from the suffix
+    got = {"split": sp, "slices": idx, "cmp": cmp_}
+    want = {"split": ["memchr::memrchr(58, std::string::String::as_bytes($redirect))"],
+            "slices": sorted(["index($redirect, std::ops::RangeFrom::RangeFrom{start: ($idx AddWithOverflow 1).0})",
+                              "index($redirect, std::ops::RangeTo::RangeTo{end: $idx})",
+                              "index($redirect, std::ops::RangeFull::RangeFull{})",
+                              "index($redirect, std::ops::RangeFull::RangeFull{})"]),
+            "cmp": [("$priority", "$p1")]}
+    # sorted lists depend on names only through the common subject prefix: compare as multisets
+    from collections import Counter
+    got["slices"] = dict(Counter(got["slices"]))
+    want["slices"] = dict(Counter(want["slices"]))
+    ren = renaming(got, want, fixed=())
+    run.ob("C13.6.priority-suffix", "slices", ren is not None,
+           "the option is split at the last ':' into resource = redirect[..idx] and priority = redirect[idx+1..] (fallback: "
+           "the whole string with priority 0), and the candidate replaces the current best only when its priority is "
+           f"greater (ties: either order); found split {sp}, slices {idx}, comparisons {cmp_}", site=f.loc(0), config=cfg)
+    # which side of the comparison is the candidate: the variable bound from the parsed suffix
+    if ren:
+        cand = ren.get("$priority")
+        pr = [f.vexpr_call(t) for b, t in f.calls(r"str::parse$|::parse$")]
+        run.ob("C13.6.priority-suffix", "higher-priority-wins", len(cmp_) == 1 and cand is not None,
+               f"the compared candidate `{cand}` is the priority of the rule at hand and the other operand the best so far",
+               config=cfg)
